@@ -62,6 +62,7 @@ func kindsOnly(items []wireItem) string {
 }
 
 type wireExtractor struct {
+	bodies   []*ast.BlockStmt // bodies of the functions being extracted, outermost first
 	c        *Ctx
 	info     *types.Info
 	mode     string // "w" or "r"
@@ -182,7 +183,9 @@ func (x *wireExtractor) sigOf(obj *types.Func) []wireItem {
 	savedRaw := x.rawReads
 	x.rawReads = x.undecodedReads(decl.Body)
 	defer func() { x.rawReads = savedRaw }()
+	x.bodies = append(x.bodies, decl.Body)
 	items := x.block(decl.Body.List)
+	x.bodies = x.bodies[:len(x.bodies)-1]
 	if x.mode == "w" {
 		items = x.dropUnwritten(items, decl.Body)
 	}
@@ -456,6 +459,23 @@ func (x *wireExtractor) literalOf(e ast.Expr) *ast.CompositeLit {
 		}
 		return nil
 	}
+	if call, ok := e.(*ast.CallExpr); ok {
+		// a layout table: an in-package function whose whole body returns a list literal
+		// (func (f *footer) fields() []interface{} { return []interface{}{&f.a, &f.b} })
+		if fn, _ := x.calleeOf(call); fn != nil && fn.Pkg() == x.c.Root.Types {
+			if decl := x.c.declOf[fn]; decl != nil && decl.Body != nil && len(decl.Body.List) == 1 {
+				if ret, ok := decl.Body.List[0].(*ast.ReturnStmt); ok && len(ret.Results) == 1 {
+					if lit, ok := ast.Unparen(ret.Results[0]).(*ast.CompositeLit); ok {
+						switch x.info.TypeOf(lit).Underlying().(type) {
+						case *types.Slice, *types.Array:
+							return lit
+						}
+					}
+				}
+			}
+		}
+		return nil
+	}
 	id, ok := e.(*ast.Ident)
 	if !ok {
 		return nil
@@ -529,6 +549,10 @@ func (x *wireExtractor) literalOf(e ast.Expr) *ast.CompositeLit {
 func (x *wireExtractor) carryOf(e ast.Expr) string {
 	e = ast.Unparen(e)
 	switch e := e.(type) {
+	case *ast.UnaryExpr:
+		if e.Op == token.AND {
+			return x.carryOf(e.X) // binary.Write/Read take pointers as well
+		}
 	case *ast.SelectorExpr:
 		if sel := x.info.Selections[e]; sel != nil && sel.Kind() == types.FieldVal {
 			// owner type name . field
@@ -537,6 +561,9 @@ func (x *wireExtractor) carryOf(e ast.Expr) string {
 				recv = p.Elem()
 			}
 			if n, ok := recv.(*types.Named); ok {
+				if k := x.forwardedConst(n.Obj().Name(), e.Sel.Name); k != "" {
+					return k
+				}
 				return n.Obj().Name() + "." + e.Sel.Name
 			}
 			return e.Sel.Name
@@ -647,6 +674,9 @@ func (x *wireExtractor) call(call *ast.CallExpr) []wireItem {
 			}
 			t := x.info.TypeOf(x.unsubst(call.Args[2]))
 			kind := "BW:" + t.String()
+			if p, ok := t.Underlying().(*types.Pointer); ok {
+				t = p.Elem() // binary.Write writes what a pointer points to
+			}
 			if b, ok := t.Underlying().(*types.Basic); ok {
 				switch b.Kind() {
 				case types.Uint32:
@@ -655,7 +685,7 @@ func (x *wireExtractor) call(call *ast.CallExpr) []wireItem {
 					kind = "U64"
 				}
 			}
-			return mk(kind, x.carryOf(call.Args[2]))
+			return mk(kind, x.carryOf(x.unsubst(call.Args[2])))
 		case full == "encoding/binary.PutUvarint" && len(call.Args) == 2:
 			x.markCarrier(call.Args[0])
 			it := mk("UV", x.carryOf(call.Args[1]))
@@ -684,6 +714,27 @@ func (x *wireExtractor) call(call *ast.CallExpr) []wireItem {
 		}
 	} else {
 		switch {
+		case full == "encoding/binary.Read" && len(call.Args) == 3:
+			if !x.isBigEndian(call.Args[1]) {
+				x.problems = append(x.problems, "binary.Read with a byte order other than binary.BigEndian at "+x.c.pos(at))
+				return mk("U??", "")
+			}
+			dst := x.unsubst(call.Args[2])
+			t := x.info.TypeOf(dst)
+			kind := "BR:" + t.String()
+			if p, ok := t.Underlying().(*types.Pointer); ok {
+				if b, ok := p.Elem().Underlying().(*types.Basic); ok {
+					switch b.Kind() {
+					case types.Uint16:
+						kind = "U16"
+					case types.Uint32:
+						kind = "U32"
+					case types.Uint64:
+						kind = "U64"
+					}
+				}
+			}
+			return mk(kind, x.carryOf(dst))
 		case full == "encoding/binary.Uvarint":
 			return mk("UV", "")
 		case strings.HasPrefix(full, "encoding/binary.") && (fn.Name() == "Uint64" || fn.Name() == "Uint32" || fn.Name() == "Uint16"):
@@ -879,4 +930,52 @@ var wireReaderFns = []string{
 	"(*Segment).loadDvReaders", "(*Segment).getDocStoredOffsets", "(*Segment).getDocStoredOffsetsOnly",
 	"(*Segment).copyStoredDocs", "(*Segment).loadStoredFieldChunk", "(*docValueReader).loadDvChunk",
 	"(*Segment).loadFieldDocValueReader", "(*chunkedIntDecoder).loadChunk",
+}
+
+// forwardedConst: a writer that copies its record and pins one field to a
+// package constant before emitting the copy (current := *footer;
+// current.version = Version) emits that constant: when the function being
+// extracted assigns a package-level constant to field `field` of a value of
+// type `owner` - and assigns that field nothing else - the field carries the
+// constant.
+func (x *wireExtractor) forwardedConst(owner, field string) string {
+	if x.mode != "w" || len(x.bodies) == 0 {
+		return ""
+	}
+	found, other := "", false
+	ast.Inspect(x.bodies[0], func(n ast.Node) bool {
+		as, ok := n.(*ast.AssignStmt)
+		if !ok || len(as.Lhs) != len(as.Rhs) {
+			return true
+		}
+		for i, lhs := range as.Lhs {
+			se, ok := ast.Unparen(lhs).(*ast.SelectorExpr)
+			if !ok || se.Sel.Name != field {
+				continue
+			}
+			sel := x.info.Selections[se]
+			if sel == nil || sel.Kind() != types.FieldVal {
+				continue
+			}
+			recv := sel.Recv()
+			if p, ok := recv.(*types.Pointer); ok {
+				recv = p.Elem()
+			}
+			if n, ok := recv.(*types.Named); !ok || n.Obj().Name() != owner {
+				continue
+			}
+			if id, ok := ast.Unparen(as.Rhs[i]).(*ast.Ident); ok {
+				if k, ok := x.info.Uses[id].(*types.Const); ok && k.Parent() == k.Pkg().Scope() {
+					found = "const " + k.Name()
+					continue
+				}
+			}
+			other = true
+		}
+		return true
+	})
+	if other {
+		return ""
+	}
+	return found
 }
